@@ -730,9 +730,14 @@ def accept_closure(chk, F, rule, cfg, cf, via):
         ('matcher rejects => skipped', {'matcher': {'ok'}, 'accepted': {0}}, 'skip'),
         ('matcher error => error out', {'matcher': {'err'}}, 'error'),
     ], config=cfg)
-    for bb, t in cf.calls():
-        n = symex.callee_name(t)
+    # everything the accept decision calls: the closure's own calls and - where std combinators are executed by contract - the calls of
+    # the closure literals handed to them (they show up as effects of the paths)
+    called = set(symex.callee_name(t) for bb, t in cf.calls())
+    for p_ in paths:
+        called |= set(e.data[1] for e in p_.calls())
+    for n in sorted(called):
         ok = bool(re.search(r'^core::ops::Fn::call$|MismatchReporter::(new_disabled|new)$', n))      # (building a switched-off reporter for the matcher consults nothing)
+        ok = ok or (symex.MODE.get('combinators') and n in symex.COMBINATORS)      # (std Option/Result/bool adaptors: they look at their receiver only)
         chk.ob(rule, 'the accept decision only consults the input matcher (no counters, no exhaustion state)', ok, config=cfg, fn=cf, site='accept-call:%s' % n,
                what='accept predicate calls %s' % n, found=n, expected='match_inputs(call_pattern, None) only')
     for bb, s in cf.stmts():
